@@ -494,8 +494,22 @@ impl OtlpTransportBuilder {
                         let metrics = metrics.clone();
 
                         async move {
-                            let mut status = 0;
-                            let mut msg = String::new();
+                            // A failure may be reported without trailers: as a plain HTTP error
+                            // (proxies, load balancers) or as a Trailers-Only response that
+                            // carries `grpc-status` in the response headers
+                            let http_status = res.http_status();
+                            let mut status = res
+                                .header("grpc-status")
+                                .and_then(|v| v.parse().ok())
+                                .unwrap_or(if http_status >= 200 && http_status < 300 {
+                                    0
+                                } else {
+                                    2
+                                });
+                            let mut msg = res
+                                .header("grpc-message")
+                                .map(String::from)
+                                .unwrap_or_default();
 
                             res.stream_payload(
                                 |_| {},
